@@ -280,6 +280,41 @@ fn judge_grid(case: &Case, l: &mut Local) {
                 let untouched = with_uv.faces().len() == f1.len() && with_uv.vertices().len() == v.len() && plain2.faces().len() == f1.len();
                 l.check("appending is refused when either mesh carries a UV map, and changes nothing", "", r1.is_err() && r2.is_err() && untouched, mk, || format!("uv.append(plain) {:?}, plain.append(uv) {:?}, faces {} and {}", r1.is_ok(), r2.is_ok(), with_uv.faces().len(), plain2.faces().len()));
             }
+            // the same sheet as an atlas: every face owns its three UV vertices (numbering unrelated to the mesh's),
+            // and measured points below the surface as well as above it
+            if !mirrored {
+                let mut auv: Vec<Point2> = Vec::new();
+                let mut af: Vec<[u32; 3]> = Vec::new();
+                for (fi, t) in f1.iter().enumerate() {
+                    for k in 0..3 {
+                        auv.push(uv[t[k] as usize]);
+                    }
+                    af.push([3 * fi as u32, 3 * fi as u32 + 1, 3 * fi as u32 + 2]);
+                }
+                if let Ok(amap) = UvMapping::new(auv, af) {
+                    let ma = Mesh::new_with_uv(v.clone(), f1.clone(), false, Some(amap));
+                    for t in f1.iter() {
+                        for bc in [[0.2, 0.3, 0.5], [0.6, 0.3, 0.1]] {
+                            for lift in [0.01, -0.01] {
+                                l.eval();
+                                l.bucket("UV round trip through an atlas, above and below the surface");
+                                let p3 = Point3::from(v[t[0] as usize].coords * bc[0] + v[t[1] as usize].coords * bc[1] + v[t[2] as usize].coords * bc[2]);
+                                let q = p3 + Vector3::new(0.0, 0.0, lift);
+                                for (which, mm) in [("atlas", &ma), ("shared numbering", &m2)] {
+                                    match guarded(|| mm.uv_with_tol(&q, 0.1, 0.5, None).and_then(|(uvp, depth)| mm.uv_to_3d(&uvp).map(|b| (b, depth)))) {
+                                        Ok(Some((back, depth))) => {
+                                            l.check("a surface point round-trips through UV coordinates", "atlas / below", d3(&back.point, &p3) <= 1e-6 && (depth - lift).abs() <= 1e-9, mk, || format!("{} map, p {:?} lifted {}: back {:?} depth {}", which, p3, lift, back.point, depth));
+                                        }
+                                        other => {
+                                            l.check("a surface point round-trips through UV coordinates", "atlas / below", false, mk, || format!("{} map, p {:?} lifted {}: {:?}", which, p3, lift, other.map(|o| o.map(|x| x.1))));
+                                        }
+                                    }
+                                }
+                            }
+                        }
+                    }
+                }
+            }
             for t in f1.iter() {
                 for bc in [[0.2, 0.3, 0.5], [1.0 / 3.0, 1.0 / 3.0, 1.0 / 3.0], [0.6, 0.3, 0.1], [0.05, 0.9, 0.05]] {
                     l.eval();
